@@ -131,9 +131,11 @@ type iClosure struct {
 }
 
 type iIter struct {
-	mp   *iMap
-	keys []string
-	pos  int
+	mp    *iMap
+	keys  []string
+	pos   int
+	str   string // a range over a constant string
+	isStr bool
 }
 
 func mapKey(k any) (string, constant.Value, bool) {
@@ -593,6 +595,11 @@ func (ip *Interp) runClosure(fn *ssa.Function, args []any, binds []any, depth in
 				ip.dirty = true
 			case *ssa.Range:
 				if mv, ok := get(x.X); ok {
+					// a constant string: iterated rune by rune, with Go's decoding (an invalid byte yields U+FFFD, width 1)
+					if sc, isC := mv.(constant.Value); isC && sc.Kind() == constant.String {
+						env[x] = &iIter{str: constant.StringVal(sc), isStr: true}
+						continue
+					}
 					if mp, isM := mv.(*iMap); isM && mp.vals != nil {
 						ks := append([]string{}, mp.keys...)
 						sort.Strings(ks)
@@ -603,6 +610,16 @@ func (ip *Interp) runClosure(fn *ssa.Function, args []any, binds []any, depth in
 				delete(env, x)
 			case *ssa.Next:
 				if iv, ok := get(x.Iter); ok {
+					if it, isI := iv.(*iIter); isI && it.isStr {
+						if it.pos < len(it.str) {
+							r, w := utf8.DecodeRuneInString(it.str[it.pos:])
+							env[x] = iTuple{constant.MakeBool(true), constant.MakeInt64(int64(it.pos)), constant.MakeInt64(int64(r))}
+							it.pos += w
+						} else {
+							env[x] = iTuple{constant.MakeBool(false), nil, nil}
+						}
+						continue
+					}
 					if it, isI := iv.(*iIter); isI {
 						if it.pos < len(it.keys) {
 							k := it.keys[it.pos]
